@@ -620,6 +620,9 @@ func (p NewChannelReqPayload) MarshalBinary() ([]byte, error) {
 	// See Frequency Encoding in MAC Commands
 	// https://lora-developers.semtech.com/documentation/tech-papers-and-guides/physical-layer-proposal-2.4ghz/
 	if freq >= 2400000000 {
+		if p.Freq%200 != 0 {
+			return b, errors.New("lorawan: Freq must be a multiple of 200 for 2.4GHz frequencies")
+		}
 		freq = freq / 2
 	}
 
